@@ -312,3 +312,17 @@ def shuffled(items, salt=''):
 
 def h(obj) -> str:
     return hashlib.sha256(json.dumps(jsonable(obj), sort_keys=True).encode()).hexdigest()[:16]
+
+
+def run_main(main):
+    """Top-level wrapper: an unexpected exception inside the harness is a harness error (exit 2,
+    no VIOLATION line), never a verdict."""
+    try:
+        return main()
+    except SystemExit:
+        raise
+    except BaseException:
+        traceback.print_exc()
+        print('HARNESS-ERROR unexpected exception in the check itself (see traceback); no verdict', file=sys.stderr)
+        cleanup_scratch()
+        return 2
